@@ -42,6 +42,26 @@ def collect(rep, tier, rnd):
                         continue
                     traces.append(ev)
                     meta.append(m)
+                    # the same estimator object fitted again on data of another size: the contract holds for every fit, not only
+                    # for the first one of an object (nothing may be remembered from the previous data)
+                    if "callable" in name or name == "KernelRIM" or not (tier == "thorough" or decorated or rnd.random() < 0.3):
+                        continue
+                    for n2 in (n + 2, n - 1):
+                        if decorated and n2 < 4:
+                            continue
+                        X2 = train.make_data(n2, d, rnd)
+                        y2 = None if y is None else train.id_affinity(n2)
+                        with warnings.catch_warnings():
+                            warnings.simplefilter("ignore")
+                            ev, err = train.record_fit(model, X2, y2, decorated=decorated)
+                        m2 = dict(m, n=n2, refit_after_n=n, batch_size=bs)
+                        rep.case(m2)
+                        if err is not None:
+                            rep.violation(f"second fit of the same object raised {type(err).__name__}: {err} for {m2}", {"meta": m2},
+                                          tags=("raises", "refit", name.split("/")[0]))
+                            break
+                        traces.append(ev)
+                        meta.append(m2)
     # a few hundred samples: the partition / alignment contract does not depend on the data size
     from gemclus.linear import LinearMMD, LinearModel
     for n, bs in ((300, 64), (257, 256), (513, 100)):
